@@ -547,6 +547,8 @@ def _patch_source(owner, name, old, new):
     glb = fn.__globals__
     ns = {}
     # methods using name-mangled attributes or zero-argument super() need their class cell
+    # keep the original line numbers so that inspect.getsource keeps working on the result
+    src = '\n' * (fn.__code__.co_firstlineno - 1 + (0 if src.startswith('def ') else 0)) + src
     code = compile(src, inspect.getsourcefile(fn), 'exec')
     exec(code, glb, ns)
     new_fn = ns[fn.__name__]
@@ -904,3 +906,37 @@ def _m66():
     from bfg9000.builtins import find as bfind
     _patch_source(bfind, 'write_depfile', '            for i in seen_dirs:\n                out.write(i.string(roots), Syntax.target)',
                   '            for i in list(seen_dirs)[:1]:\n                out.write(i.string(roots), Syntax.target)')
+
+
+@mutant('pc_no_hash_escape')
+def _m67():
+    # the .pc writer as it was before the fix: '#' written raw
+    from bfg9000.builtins import pkg_config as pc
+    from bfg9000.iterutils import iterate
+
+    def _write_value(out, value, syntax, **kwargs):
+        out.write_each(iterate(value), syntax, **kwargs)
+    pc.PkgConfigWriter._write_value = staticmethod(_write_value)
+
+
+@mutant('install_deps_via_set')
+def _m68():
+    from bfg9000.builtins import install as bi
+    from vpx import advset
+
+    def edit(src):
+        assert 'for dep in src.install_deps:' in src
+        return src.replace('for dep in src.install_deps:', 'for dep in set(src.install_deps):')
+    advset.rewrite(bi.InstallOutputs, '_add_implicit', edit)
+
+
+@mutant('directory_deps_via_set')
+def _m69():
+    from bfg9000.backends.make import writer as mw
+    from vpx import advset
+
+    def edit(src):
+        old = 'dirs = uniques(_get_path(i).parent() for i in targets)'
+        assert old in src
+        return src.replace(old, 'dirs = {_get_path(i).parent() for i in targets}')
+    advset.rewrite(mw, 'directory_deps', edit)
